@@ -23,7 +23,7 @@ RULE = (
     "default, full; request histories as in C14 with sendKey using the seed just received) are generated in batches and shipped "
     "as JSON to several fresh interpreters that differ in PYTHONHASHSEED (0, 1, 4242, random), import order (server module first "
     "vs whole command tree first), wall clock (+1e6 s), global random state, the order in which the batch is processed (so that state leaking "
-    "between ECU instances of one process shows) and whether the server is built directly or through the `vecu rng` command class. Oracle: identical session/service/sub-function "
+    "between ECU instances of one process shows), whether all ECUs with equal arguments share one argument object and are set up twice, and whether the server is built directly or through the `vecu rng` command class. Oracle: identical session/service/sub-function "
     "model (canonical JSON) and byte-identical transcripts (security-access seed bytes and the keys derived from them masked) in "
     "all environments; structural: mandatory sessions and services present, and when DiagnosticSessionControl is offered "
     "everywhere every offered session is reachable from session 1 through offered sub-functions and offers session 1 itself. "
@@ -38,7 +38,7 @@ ENVS = [
     {"PYTHONHASHSEED": "0", "VF_IMPORT_ORDER": "server-first"},
     {"PYTHONHASHSEED": "1", "VF_IMPORT_ORDER": "all-first", "VF_RNG_PERTURB": "1", "VF_ORDER": "reverse"},
     {"PYTHONHASHSEED": "4242", "VF_IMPORT_ORDER": "server-first", "VF_CLOCK_SHIFT": "1000000", "VF_RNG_PERTURB": "1", "VF_VIA_COMMAND": "1"},
-    {"PYTHONHASHSEED": "random", "VF_IMPORT_ORDER": "all-first", "VF_ORDER": "interleave"},
+    {"PYTHONHASHSEED": "random", "VF_IMPORT_ORDER": "all-first", "VF_ORDER": "interleave", "VF_REUSE_PARAMS": "1"},
     {"PYTHONHASHSEED": "random", "VF_IMPORT_ORDER": "server-first", "VF_RNG_PERTURB": "1", "VF_ORDER": "rotate:37"},
     {"PYTHONHASHSEED": "7", "VF_IMPORT_ORDER": "all-first", "VF_CLOCK_SHIFT": "-500000", "VF_VIA_COMMAND": "1", "VF_ORDER": "reverse"},
     {"PYTHONHASHSEED": "random", "VF_IMPORT_ORDER": "server-first", "VF_CLOCK_SHIFT": "31536000"},
